@@ -1,6 +1,7 @@
 import Ucfg.Lemmas.Forest
 import Ucfg.Lemmas.ForestSet
 import Ucfg.Lemmas.ForestPlacedSet
+import Ucfg.Lemmas.ForestBuild
 /-!
   C15 — Path, Parent, FlattenedKeys and diff describe the actual structure.
 
@@ -435,14 +436,61 @@ theorem set_keeps_positions (h h' : Heap) (root : Id) (segs : List Seg) (k v : S
       subst hs
       exact setChain_wp k v rest h to (getSub_lt hg) w
 
-/-- the operations of a history (merges between any two nodes, primitive writes along any path) -/
+/-- Merge(value) keeps every stored position right: what is built from the value stores its positions (`buildH_ok`) -/
+theorem mergeSrc_keeps_positions (n cf : Nat) (pol : ArrPol) (h h' : Heap) (to : Id) (src : Src) (w : WP h)
+    (he : mergeSrcH n cf pol h to src = some h') : WP h' := by
+  cases src with
+  | reg frm => exact merge_keeps_positions n cf pol h h' to frm w he
+  | nil | prim _ _ | arr _ | map _ =>
+    all_goals
+      simp only [mergeSrcH] at he
+      cases hb : buildH cf h _ none "" with
+      | none => rw [hb] at he; cases he
+      | some r =>
+        obtain ⟨h1, frm⟩ := r
+        rw [hb] at he
+        simp only at he
+        exact merge_keeps_positions n cf pol h1 h' to frm ((buildH_ok cf _ h none "" h1 frm hb).wp w) he
+
+/-- NewFrom(value) keeps every stored position right -/
+theorem newFrom_keeps_positions (n cf : Nat) (pol : ArrPol) (h h' : Heap) (src : Src) (root : Id) (w : WP h)
+    (he : newFromH n cf pol h src = some (h', root)) : WP h' := by
+  unfold newFromH at he
+  cases hm : mergeSrcH n cf pol (h ++ [⟨none, "", .sub [] []⟩]) h.length src with
+  | none => rw [hm] at he; cases he
+  | some h2 =>
+    rw [hm] at he
+    simp only [Option.some.injEq, Prod.mk.injEq] at he
+    obtain ⟨rfl, _⟩ := he
+    apply mergeSrc_keeps_positions n cf pol _ h2 h.length src _ hm
+    apply wp_append _ w
+    intro j nd hj
+    cases j with
+    | zero =>
+      simp only [List.getElem?_cons_zero, Option.some.injEq] at hj
+      subst hj
+      exact ⟨fun kc hkc => (by cases hkc), fun i c hc => (by simp at hc)⟩
+    | succ j => simp at hj
+
+/-- the operations of a history: NewFrom and Merge of values (plain data with configs embedded anywhere), merges between
+any two nodes, primitive writes along any path -/
 inductive HOp where
+  | new (pol : ArrPol) (src : Src)
+  | mergeVal (pol : ArrPol) (to : Id) (src : Src)
   | merge (pol : ArrPol) (to frm : Id)
   | set (root : Id) (segs : List Seg) (kind val : String)
 
 /-- run a history; an operation the model does not describe (`none` / `unmodelled`) or that Go refuses leaves the heap -/
 def runOps (n cf : Nat) : Heap → List HOp → Heap
   | h, [] => h
+  | h, .new pol src :: r =>
+    (match newFromH n cf pol h src with
+     | some (h1, _) => runOps n cf h1 r
+     | none => runOps n cf h r)
+  | h, .mergeVal pol to src :: r =>
+    (match mergeSrcH n cf pol h to src with
+     | some h1 => runOps n cf h1 r
+     | none => runOps n cf h r)
   | h, .merge pol to frm :: r =>
     (match mergeH n cf pol h to frm with
      | some h1 => runOps n cf h1 r
@@ -452,13 +500,24 @@ def runOps (n cf : Nat) : Heap → List HOp → Heap
      | .ok h1 => runOps n cf h1 r
      | _ => runOps n cf h r)
 
-/-- after ANY history of merges and writes, every node stores the position it is at -/
+/-- after ANY history of NewFrom, Merge and Set* calls - starting from nothing (`wp_empty`) - every node stores the
+position it is at -/
 theorem history_keeps_positions (n cf : Nat) (ops : List HOp) : ∀ h, WP h → WP (runOps n cf h ops) := by
   induction ops with
   | nil => intro h w; exact w
   | cons op r ih =>
     intro h w
     cases op with
+    | new pol src =>
+      simp only [runOps]
+      cases hm : newFromH n cf pol h src with
+      | none => exact ih h w
+      | some r1 => obtain ⟨h1, root⟩ := r1; exact ih h1 (newFrom_keeps_positions n cf pol h h1 src root w hm)
+    | mergeVal pol to src =>
+      simp only [runOps]
+      cases hm : mergeSrcH n cf pol h to src with
+      | none => exact ih h w
+      | some h1 => exact ih h1 (mergeSrc_keeps_positions n cf pol h h1 to src w hm)
     | merge pol to frm =>
       simp only [runOps]
       cases hm : mergeH n cf pol h to frm with
